@@ -326,6 +326,49 @@ func genC03(tier string, r *Rng, emit func(Case)) {
 		q := big.NewInt(int64(r.Pick([]int{3, 7, 9, 11, 13, 21})))
 		emitRoot(emit, r, fams[k], num, new(big.Int).Exp(q, big.NewInt(pw[k]), nil), 40, false)
 	}
+	// several terminating roots computed at the same time by different goroutines: each must still end exactly
+	nconc := 10
+	if thorough {
+		nconc = 120
+	}
+	for i := 0; i < nconc; i++ {
+		g := r.Range(4, 8)
+		var t toks
+		t.i(g)
+		for j := 0; j < g; j++ {
+			k := r.Intn(3)
+			if k == 2 {
+				k = 1 // mostly cube roots
+			}
+			L := r.Pick([]int{40, 99, 100, 101, 150})
+			a := new(big.Int).Sub(pow10(L), big.NewInt(int64(r.Range(1, 999))))
+			num := new(big.Int).Exp(a, big.NewInt(pw[k]), nil)
+			t.s(fams[k][2])
+			t.s(num.String())
+			t.i(1)
+			t.i(L + 3)
+		}
+		emit(Case{Ver: allVers[i%3], Op: "ConcRoots", Args: t})
+	}
+	// large machine-size radicands next to perfect powers (beyond float64 precision), through every constructor
+	for _, s := range []int64{94906265, 94906266, 94906267, 134217728, 134217729, 1073741824, 2147483647, 3000000000, 3037000499} {
+		sq := new(big.Int).Mul(big.NewInt(s), big.NewInt(s))
+		for _, dlt := range []int64{-1, 0, 1, 512} {
+			x := new(big.Int).Add(sq, big.NewInt(dlt))
+			if x.IsInt64() {
+				emitRoot(emit, r, sqrtCtors, x, one, 2*len(big.NewInt(s).String())+6, true)
+			}
+		}
+	}
+	for _, s := range []int64{208063, 208064, 1048576, 2097151} {
+		cb := new(big.Int).Exp(big.NewInt(s), big.NewInt(3), nil)
+		for _, dlt := range []int64{-1, 0, 1} {
+			x := new(big.Int).Add(cb, big.NewInt(dlt))
+			if x.IsInt64() {
+				emitRoot(emit, r, cubeCtors, x, one, 3*len(big.NewInt(s).String())+6, true)
+			}
+		}
+	}
 	// depth exactly at the end, one before and one after
 	for _, s := range []int64{5, 25, 125, 12, 1001, 999} {
 		for k := 0; k < 2; k++ {
